@@ -74,6 +74,6 @@ def amax(
         a, graded=options["sort_graded"], reverse=options["sort_reverse"]
     )
     indices = numpy.amax(proxy, axis=axis, **kwargs)
-    out = a[numpy.isin(proxy, indices)]
-    out = out[numpy.argsort(indices.ravel())]
+    positions = numpy.argsort(proxy.ravel())[indices.ravel()]
+    out = a.ravel()[positions]
     return numpoly.reshape(out, indices.shape)
